@@ -85,9 +85,120 @@ def oracle(c: SC.SigCase) -> Optional[dict]:
     return None
 
 
+def strict_family(rng: random.Random, n: int) -> dict:
+    """Default resolution: `def f(a: T) -> T` for C07's annotation grammar, called with conforming values and
+    their coercible look-alikes. Accepted iff the argument already is a value of T; the body sees an equal value;
+    the call returns what the undecorated function returns."""
+    from . import C07
+    from koda_validate.signature import InvalidArgsError, InvalidReturnError, validate_signature
+    out = {"violations": [], "ran": 0, "accepted": 0, "rejected": 0}
+    seen = set()
+    cases = [c for c in C07.gen_cases(rng, n)]
+    for c in cases:
+        if C07.uses_annotated(c.a):
+            continue
+        try:
+            b = C07.Built(c.classes, c.a, True, rng)
+            px = C07.to_py(c.x, b.ct)
+        except HarnessError:
+            continue
+        except Exception:  # noqa
+            continue
+        rec = []
+
+        def f(a):
+            rec.append(a)
+            return a
+        f.__annotations__ = {"a": b.T, "return": b.T}
+        try:
+            w = validate_signature(f)
+        except Exception as e:  # noqa
+            continue
+        typed = C07.is_value(c.a, px, b, extra_ok=True)
+        res = exc = None
+        try:
+            res = w(px)
+        except BaseException as e:  # noqa
+            exc = e
+        out["ran"] += 1
+        r = None
+        if typed:
+            out["accepted"] += 1
+            if exc is not None:
+                r = ("C09:strict-rejects-value", f"{px!r} is a value of {b.T!r} but the call ended with {type(exc).__name__}")
+            elif not rec or not C07.deep_same(rec[0], px) and C07.is_value(c.a, px, b):
+                if rec and C07.typeddict_in_union(c.a) and C07.is_value(c.a, rec[0], b):
+                    r = ("C09:typeddict-variant-strips-keys",
+                         f"a union with a TypedDict variant: the argument {px!r} is a value of a later variant, an earlier TypedDict variant accepted it and the body saw it without its undeclared keys: {rec[0]!r}")
+                else:
+                    r = ("C09:strict-body-value", f"the body saw {rec[:1]!r} for the argument {px!r}")
+            elif res is not rec[0]:
+                r = ("C09:strict-return", "the call did not return what the function returned")
+        else:
+            out["rejected"] += 1
+            if type(exc) is not InvalidArgsError:
+                r = ("C09:strict-coerced", f"{px!r} is not a value of {b.T!r}, yet the call {'returned' if exc is None else 'ended with ' + type(exc).__name__}; the body saw {rec[:1]!r}")
+        if r and r[0] not in seen:
+            seen.add(r[0])
+            out["violations"].append({"kind": "oracle", "signature": r[0], "what": r[1], "replay_case": {"strict": c.to_json()}})
+    return out
+
+
+def probe_known(k: dict) -> bool:
+    w = k.get("witness")
+    if not w:
+        return False
+    from . import C07
+    from koda_validate.signature import validate_signature
+    try:
+        c = C07.tcase_from_json(w)
+        b = C07.Built(c.classes, c.a, True)
+        px = C07.to_py(c.x, b.ct)
+        rec = []
+
+        def f(a):
+            rec.append(a)
+            return a
+        f.__annotations__ = {"a": b.T}
+        validate_signature(f)(px)
+        return bool(rec) and C07.is_value(c.a, px, b) and not C07.deep_same(rec[0], px) and C07.is_value(c.a, rec[0], b)
+    except Exception:  # noqa
+        return False
+
+
 def run(tier: str, rng: random.Random, proof_ok: bool) -> dict:
-    return C08.run(tier, rng, proof_ok, oracle_fn=oracle, name="C09")
+    rep = C08.run(tier, rng, proof_ok, oracle_fn=oracle, name="C09")
+    st = strict_family(rng, 900 if tier == "quick" else 12000)
+    rep["violations"] += st["violations"]
+    rep["coverage"]["strict_family"] = {k: st[k] for k in ("ran", "accepted", "rejected")}
+    rep["coverage"]["evaluations"] += st["ran"]
+    return rep
 
 
 def replay(path: str) -> int:
+    j = json.load(open(path))
+    cj = j.get("replay_case") or {}
+    if "strict" in cj:
+        from . import C07
+        from koda_validate.signature import validate_signature
+        c = C07.tcase_from_json(cj["strict"])
+        b = C07.Built(c.classes, c.a, True)
+        px = C07.to_py(c.x, b.ct)
+        rec = []
+
+        def f(a):
+            rec.append(a)
+            return a
+        f.__annotations__ = {"a": b.T, "return": b.T}
+        typed = C07.is_value(c.a, px, b, extra_ok=True)
+        try:
+            res, exc = validate_signature(f)(px), None
+        except BaseException as e:  # noqa
+            res, exc = None, e
+        print("annotation:", b.T, "| argument:", repr(px), "| is a value of the type:", typed)
+        print("body saw:", rec[:1], "| exception:", repr(exc)[:200])
+        bad = (typed and exc is not None) or (not typed and type(exc).__name__ != "InvalidArgsError") or \
+            (typed and exc is None and C07.is_value(c.a, px, b) and not C07.deep_same(rec[0], px))
+        print("property violated on this input" if bad else "property holds on this input")
+        return 1 if bad else 0
     return C08.replay(path, oracle_fn=oracle)
